@@ -9,6 +9,7 @@ pub fn dispatch(name: &str, args: &[String]) -> u8 {
         "c11-overflow" => c11_overflow(args),
         "c13-find" => c13_find(args),
         "c07-lex" => c07_lex(args),
+        "c10-layout" => c10_layout(args),
         "c13-replace" => c13_replace(args),
         _ => {
             eprintln!("unknown case {name}");
@@ -158,4 +159,33 @@ fn c07_lex(args: &[String]) -> u8 {
         }
     }
     u8::from(bad)
+}
+
+/// C10: two layouts of the same token sequence must lex to the same tokens (kind + text) and the
+/// same diagnostics (messages, in order).  Exit 1 when they differ.
+fn c10_layout(args: &[String]) -> u8 {
+    use naijascript::syntax::scanner::Lexer;
+    let (a, b) = (unhex(&args[0]), unhex(&args[1]));
+    let (Ok(a), Ok(b)) = (std::str::from_utf8(&a), std::str::from_utf8(&b)) else {
+        println!("not UTF-8: skipped");
+        return 0;
+    };
+    let arena = Arena::new(4 * 1024 * 1024).unwrap();
+    let lex = |src: &str| -> (Vec<String>, Vec<String>) {
+        let mut lexer = Lexer::new(src, &arena);
+        let mut toks = Vec::new();
+        while let Some(t) = lexer.next() {
+            toks.push(format!("{:?}", t.token));
+            if toks.len() > 10 * src.len() + 10 {
+                break;
+            }
+        }
+        let diags = lexer.errors.diagnostics.iter().map(|d| d.message.to_string()).collect();
+        (toks, diags)
+    };
+    let (ta, da) = lex(a);
+    let (tb, db) = lex(b);
+    println!("A {a:?}: tokens {ta:?} diagnostics {da:?}");
+    println!("B {b:?}: tokens {tb:?} diagnostics {db:?}");
+    u8::from(ta != tb || da != db)
 }
